@@ -24,8 +24,8 @@ func init() {
 		Technique:   "runtime monitor: twin (mutate one side, watch the other) + address-range overlap monitor on Clone results",
 		Assumptions: []string{"extension values are reached through GetExtension (the only public way)"},
 		Strata: []fw.Stratum{
-			{Name: "packet-clone", N: fw.Const(100000, 3000000), Run: c20Packet},
-			{Name: "header-clone", N: fw.Const(50000, 1500000), Run: c20Header},
+			{Name: "packet-clone", N: fw.Const(400000, 4000000), Run: c20Packet},
+			{Name: "header-clone", N: fw.Const(200000, 2000000), Run: c20Header},
 		},
 	})
 }
